@@ -246,6 +246,11 @@ def scalar(rng):
     return rng.choice([None, True, False, 0, 1, 7, -3, 1.5, -0.25, "", "hello", "a", "fixed", "2020-01-01", "2020-01-01T10:00:00", UUIDS[0]])
 
 
+def has_file(k):
+    """the kind contains a binary payload (directly, as array item or union member)"""
+    return k[0] == "file" or (k[0] == "list" and has_file(k[1])) or (k[0] == "union" and any(has_file(m) for m in k[1]))
+
+
 class NoInstance(Exception):
     """the schema has no finite instance along this path (required cycle)"""
 
@@ -310,7 +315,7 @@ class Inst:
             return {}          # the falsy instance of a model without required properties
         for name, req, k in props_:
             deep = d >= self.maxdepth
-            if k[0] == "file":
+            if has_file(k):
                 if req:
                     raise NoInstance()      # a binary payload has no JSON representation
                 continue
